@@ -254,6 +254,15 @@ class SymbolicExpression(Generic[T], ABC):
         return conditions_root
 
     @property
+    def _is_the_condition_of_its_parent_(self) -> bool:
+        """
+        :return: True if this expression is currently evaluated as the condition of a query descriptor (entity/set_of),
+         this also holds for nested queries and for expressions that are shared between several queries.
+        """
+        parent = self._parent_
+        return isinstance(parent, QueryObjectDescriptor) and parent._child_ is self
+
+    @property
     def _root_(self) -> SymbolicExpression:
         """
         Get the root of the symbolic expression tree.
@@ -999,7 +1008,7 @@ class Variable(CanBehaveLikeAVariable[T]):
         if self._id_ in sources:
             if (
                 isinstance(self._parent_, LogicalBinaryOperator)
-                or self is self._conditions_root_
+                or self._is_the_condition_of_its_parent_
             ):
                 self._is_false_ = not bool(sources[self._id_])
             yield OperationResult(sources, not bool(sources[self._id_]), self)
@@ -1186,8 +1195,13 @@ class DomainMapping(CanBehaveLikeAVariable[T], ABC):
         :param current_value: The current value of this operation that is derived from the child result.
         :return: The operation result.
         """
-        if isinstance(self._parent_, LogicalOperator) or self is self._conditions_root_:
+        if (
+            isinstance(self._parent_, LogicalOperator)
+            or self._is_the_condition_of_its_parent_
+        ):
             self._is_false_ = not bool(current_value)
+        else:
+            self._is_false_ = False
         return OperationResult(
             {**child_result.bindings, self._id_: current_value},
             self._is_false_,
